@@ -204,6 +204,12 @@ def items(tier, rng):
         rows = [[rng.choice((0, 1, 2, 3)) for _ in range(3)] for _ in range(rng.choice([1, 2]))]
         c = [rng.randint(-3, 3) for _ in range(3)]
         cells.append((rows, c, 1, [0, 1, 2]))  # binary-style knapsack rows
+    for _ in range(12 if q else 120):
+        # knapsack-shaped all-binary cells (positive weights and profits): the rounding heuristic's flip and swap phases have work to do
+        nv = rng.choice([3, 3, 4])
+        rows = [[rng.choice((1, 2, 3)) for _ in range(nv)] for _ in range(rng.choice([1, 2]))]
+        c = [rng.choice((1, 2, 3, 4)) for _ in range(nv)]
+        cells.append((rows, c, 1, list(range(nv))))
     for _ in range(16 if q else 120):
         # three variables, two of them integer, explicit x_j <= 1 rows on SOME variables only (integer or continuous)
         rows = [[rng.choice((-2, -1, 0, 1, 2)) for _ in range(3)] for _ in range(2)]
